@@ -521,15 +521,28 @@ fn bf_seq(ctx: &mut Ctx, a: &[String]) -> Out {
     }
     let mut out = String::new();
     let mut n = 0usize;
+    let mut not_sync = false;
     for (key, ops) in blocks.iter() {
         let b = physis::blowfish::Blowfish::new(key);
         let mut results: Vec<Vec<Option<Vec<u8>>>> = vec![vec![]; ops.len()];
-        if threads == 1 {
-            for (i, (enc, m)) in ops.iter().enumerate() {
-                results[i].push(run(&b, *enc, m));
+        // sharing is only legitimate while the type is `Sync`; whether it is is probed at compile time (inherent method on the
+        // probe for `T: Sync` wins over the trait default), so that a tree in which the type stopped being `Sync` still builds -
+        // the threads then take turns on the calling thread instead, and the result says so
+        #[allow(unused_imports)]
+        use sync_probe::NotSync;
+        let is_sync = sync_probe::Probe::<physis::blowfish::Blowfish>(std::marker::PhantomData).is_sync();
+        if threads == 1 || !is_sync {
+            for _ in 0..(if threads == 1 { 1 } else { reps }) {
+                for (i, (enc, m)) in ops.iter().enumerate() {
+                    results[i].push(run(&b, *enc, m));
+                }
+            }
+            if threads > 1 {
+                not_sync = true;
             }
         } else {
-            let shared = &b;
+            let wrapped = sync_probe::AssertSync(&b);
+            let shared = &wrapped;
             let parts: Vec<Vec<(usize, Option<Vec<u8>>)>> = std::thread::scope(|sc| {
                 let hs: Vec<_> = (0..threads)
                     .map(|t| {
@@ -538,7 +551,7 @@ fn bf_seq(ctx: &mut Ctx, a: &[String]) -> Out {
                             for _ in 0..reps {
                                 for (i, (enc, m)) in ops.iter().enumerate() {
                                     if i % threads == t {
-                                        mine.push((i, run(shared, *enc, m)));
+                                        mine.push((i, run(shared.0, *enc, m)));
                                     }
                                 }
                             }
@@ -572,7 +585,26 @@ fn bf_seq(ctx: &mut Ctx, a: &[String]) -> Out {
     if std::fs::write(&a[1], out).is_err() {
         return Out::usage("output");
     }
-    Out::ok(J::from(n))
+    Out::ok(obj! {"n" => n, "shared_between_threads" => threads > 1 && !not_sync})
+}
+
+/// compile-time probe for `T: Sync` that builds either way (autoref specialisation), and a wrapper used only when it says yes
+pub mod sync_probe {
+    pub struct Probe<T>(pub std::marker::PhantomData<T>);
+    impl<T: Sync> Probe<T> {
+        pub fn is_sync(&self) -> bool {
+            true
+        }
+    }
+    pub trait NotSync {
+        fn is_sync(&self) -> bool {
+            false
+        }
+    }
+    impl<T> NotSync for Probe<T> {}
+    pub struct AssertSync<T>(pub T);
+    unsafe impl<T> Sync for AssertSync<T> {}
+    unsafe impl<T> Send for AssertSync<T> {}
 }
 
 pub fn fiin_j(f: &physis::fiin::FileInfo) -> J {
